@@ -326,7 +326,7 @@ pub fn run(ctx: &mut Ctx) {
         "equal depth ties for the maximum drawdown: any of the tied drawdowns accepted; mean duration within (n+1) ms of the true mean (integer running mean)".into(),
     ];
     ctx.run_regressions::<DrawdownScan>();
-    ctx.run::<DrawdownScan>(ctx.tier.pick(6_000, 200_000));
+    ctx.run::<DrawdownScan>(ctx.tier.pick(80_000, 1_200_000));
 }
 
 pub fn replay(ctx: &mut Ctx, doc: &Value) -> bool {
